@@ -52,14 +52,14 @@ def base_offset(cls):
 
 
 def run(rep, prog, tier):
-    rep.rule('C08.a', 'every slice read is consumed before the next read', floor=60)
-    rep.rule('C08.b', 'nothing consumes from an aliased input buffer', floor=60)
-    rep.rule('C08.c', 'reader field order = writer field order (names and fixed widths)', floor=30)
-    rep.rule('C08.d', 'trailing remainder read = header.length - (header octets + fixed widths read before)', floor=15)
+    rep.rule('C08.a', 'every slice read is consumed before the next read', floor=90)
+    rep.rule('C08.b', 'nothing consumes from an aliased input buffer', floor=90)
+    rep.rule('C08.c', 'reader field order = writer field order (names and fixed widths)', floor=70)
+    rep.rule('C08.d', 'trailing remainder read = header.length - (header octets + fixed widths read before)', floor=16)
     rep.rule('C08.e', 'each emitted length is followed by the octets it counts', floor=4)
-    rep.rule('C08.f', 'text fields are written with the codec they are read with', floor=6)
-    rep.rule('C08.g', 'dispatch coverage: packet tags and versioned classes', floor=18)
-    rep.rule('C08.h', 'update_hlen after building or changing a packet body', floor=10)
+    rep.rule('C08.f', 'text fields are written with the codec they are read with (per reader path and remembered fallback)', floor=14)
+    rep.rule('C08.g', 'dispatch: packet tags and versioned classes have codecs; unknown type/version -> opaque entry; opaque payload verbatim; parse errors -> PGPError', floor=30)
+    rep.rule('C08.h', 'update_hlen after the last body change of a built/changed packet on every path; inner lengths before the packet length', floor=18)
     rep.rule('C08.i', 'old-format header width follows the length', floor=1)
     rep.assume('MPI(buf), ECPoint(buf), Klass(buf) and sub.parse(buf) consume exactly what the corresponding writer emits (each is itself a checked pair)')
     rep.assume('value normalisations that are fixed points (flag masks, canonical lengths, MPI bit counts) are allowed by the statement')
@@ -505,6 +505,8 @@ def reader_text_fields(prog, c):
                     decs.append((text, ft[:-len('.decode')], (args, kw)))
                 elif ft == 'chr' and len(args) == 1 and not kw:
                     decs.append((text, args[0], [('latin-1', False)]))        # chr(octet) is the latin-1 reading of one octet
+                elif ft == 'str' and args and (len(args) >= 2 or 'encoding' in kw):
+                    decs.append((text, args[0], (args[1:], kw)))             # str(octets, codec) is octets.decode(codec)
                 elif args:
                     h = _resolve_helper(prog, c, f, ft)
                     summ = decoder_summary(prog, h) if h is not None else None
@@ -563,6 +565,10 @@ def writer_text_fields(prog, c, wf, bind=None):
         for ft, args, kw, line, node in s.calls:
             if ft.endswith('.encode') and ft.startswith(p0 + '.') and '.' not in ft[len(p0) + 1:-len('.encode')]:
                 enc.setdefault(ft[len(p0) + 1:-len('.encode')].lstrip('_'), set()).add(_codec_arg(args, kw, wf.where))
+            elif ft in ('bytes', 'bytearray') and args and (len(args) >= 2 or 'encoding' in kw) and args[0].startswith(p0 + '.') and \
+                    '.' not in args[0][len(p0) + 1:]:
+                # bytes(self.f, codec) is self.f.encode(codec)
+                enc.setdefault(args[0][len(p0) + 1:].lstrip('_'), set()).add(_codec_arg(args[1:], kw, wf.where))
     return enc, atoms
 
 
